@@ -186,6 +186,62 @@ def run(ctx):
                     # non-isolated nodes
                     st_ = "violation"
             res.add("I-ROWS", ak.fi.short, norm(s), "rows=non_isolates", st_, "" if st_ == "ok" else (why if st_ == "violation" else "how rows and labels are paired was not recognised"), loc(ak.fi, s))
+    # ---- E-DERIVED: an attribute kept as an elementwise function of a parameter array (self.log_u = np.log(self.u + eps)) is
+    #      refreshed after every store into that array: no store to self.u[...] reaches the end of its method (or the next
+    #      iteration) without the matching store to self.log_u
+    with res.guard("E-DERIVED"):
+        res.rules["E-DERIVED"] = "an attribute cached as an elementwise function of a parameter array is refreshed after every change of that array (no store to the array after the last refresh on any path)"
+        UFUNCS = ("log", "exp", "sqrt", "log1p", "square", "abs", "log2", "log10")
+        n_der = 0
+        for cls in ("HypergraphMT", "HySC"):
+            methods = ctx.methods(cls)
+            derived = {}  # D -> X
+            for m in methods.values():
+                for n in walk_no_nested(m.node):
+                    if isinstance(n, ast.Assign) and len(n.targets) == 1 and is_self_attr(n.targets[0]) and isinstance(n.value, ast.Call) and isinstance(n.value.func, ast.Attribute) and n.value.func.attr in UFUNCS and norm(n.value.func.value) in ("np", "numpy"):
+                        srcs = {x.attr for x in ast.walk(n.value) if isinstance(x, ast.Attribute) and is_self_attr(x)}
+                        if len(srcs) == 1 and n.targets[0].attr not in srcs:
+                            derived[n.targets[0].attr] = srcs.pop()
+            for D, X in sorted(derived.items()):
+                for m in methods.values():
+                    mv = ctx.view(m)
+
+                    def stores_of(attr):
+                        out = []
+                        for n in walk_no_nested(m.node):
+                            tg = n.targets if isinstance(n, ast.Assign) else ([n.target] if isinstance(n, ast.AugAssign) else [])
+                            for t in tg:
+                                base = t
+                                while isinstance(base, ast.Subscript):
+                                    base = base.value
+                                if is_self_attr(base, attr):
+                                    out.append(n)
+                        return out
+
+                    xs, ds = stores_of(X), stores_of(D)
+                    if not xs:
+                        continue
+                    d_ids = {mv.cfg_id(d_) for d_ in ds} - {None}
+                    for x_ in xs:
+                        n_der += 1
+                        xid = mv.cfg_id(x_)
+                        if xid is None:
+                            continue
+                        lp = mv.enclosing(x_, (ast.For, ast.While))
+                        # (row-by-row refresh inside a loop: every iteration has to end refreshed; a refresh of the whole array
+                        # after the loop is enough otherwise)
+                        per_row = lp is not None and any(any(d_ is y for y in ast.walk(lp)) for d_ in ds)
+                        ends = [mv.cfg.exit] + ([mv.cfg.by_ast[id(lp)] if isinstance(lp, ast.For) else mv.cfg.by_ast[id(lp.test)]] if per_row else [])
+                        stale = any(mv.cfg.reaches_without(xid, e_, d_ids) for e_ in ends)
+                        if not stale:
+                            res.ok("E-DERIVED", m.short, norm(x_)[:100], f"{D}<-{X}", loc(m, x_))
+                        elif not ds:
+                            # the method never touches the derived attribute: it may be recomputed as a whole by its caller
+                            res.unknown("E-DERIVED", m.short, norm(x_)[:100], f"{D}<-{X}", f"self.{X} is changed here and self.{D} is not refreshed in this method", loc(m, x_))
+                        else:
+                            res.violation("E-DERIVED", m.short, norm(x_)[:100], f"{D}<-{X}", f"self.{D} caches a function of self.{X} and is refreshed in this method, but this store to self.{X} comes after the last refresh on some path: self.{D} keeps the value of the old self.{X} (the likelihood / rho are computed from memberships that are not the stored ones)", loc(m, x_))
+        if n_der == 0:
+            res.ok("E-DERIVED", "HypergraphMT", "no attribute cached as an elementwise function of a parameter array", "scan", "hypergraphx/communities/hypergraph_mt/model.py")
     # ---- I-ISOL
     with res.guard("I-ISOL"):
         for d in ("HySC._init_data", "HypergraphMT._check_fit_params"):
